@@ -814,6 +814,19 @@ func (en *evalEnv) call(x *ECall) ev {
 			return ev{Ite(Le(a, b), a, b), nil}
 		}
 		return ev{Ite(Le(a, b), b, a), nil}
+	case "contains", "hasprefix", "hassuffix", "equalfold":
+		// the library predicate of the same name applied to two strings (uninterpreted, see knownCall)
+		f := "str_" + x.Fun
+		if !e.declared[f] {
+			e.declared[f] = true
+			e.emit("(declare-fun %s (Int Int) Bool)", f)
+		}
+		a, aok := arg(0).v.(*Term)
+		b, bok := arg(1).v.(*Term)
+		if !aok || !bok {
+			en.fail("%s(a, b): strings expected", x.Fun)
+		}
+		return ev{App(SBool, f, a, b), nil}
 	case "has":
 		// has(m, k): key in map
 		a := arg(0)
